@@ -36,6 +36,49 @@ def resolve_k(k, n):
     return int(k)
 
 
+class TrackedFile:
+    """the handle returned by a wrapped open(): forwards everything to the real file; closing it is the operation X.
+    A kill never flushes it — the harness lets Python close it while unwinding and then truncates the file back to
+    what was on disk at the kill (Injector.restore_disk)."""
+
+    def __init__(self, f, inj, path):
+        self._f, self._inj, self._path, self._written = f, inj, path, False
+        inj.open_files.append(self)
+
+    def __getattr__(self, a):
+        return getattr(self._f, a)
+
+    def write(self, b):
+        self._written = True
+        return self._f.write(b)
+
+    def __enter__(self):
+        return self
+
+    def __exit__(self, et, ev, tb):
+        if et is None:
+            self.close()
+        else:
+            self._really_close()
+        return False
+
+    def close(self):
+        if self._f.closed:
+            return
+        try:
+            if self._inj.cur is not None and not self._inj.inner:
+                self._inj._tick("X", self._path)
+        finally:
+            self._really_close()
+
+    def _really_close(self):
+        try:
+            self._f.close()
+        finally:
+            if self in self._inj.open_files:
+                self._inj.open_files.remove(self)
+
+
 class Injector:
     def __init__(self, root):
         self.root = os.path.realpath(root)
@@ -44,6 +87,8 @@ class Injector:
         self.cur = None
         self.inner = 0
         self.fired = False
+        self.open_files = []     # TrackedFile objects not yet closed
+        self.snapshot = None     # on-disk sizes at the instant of the kill
 
     # ------------------------------------------------------------------ bookkeeping
     def tracked(self, path):
@@ -66,6 +111,43 @@ class Injector:
     def disarm(self):
         self.target = None
 
+    def _disk_state(self):
+        """what a fresh descriptor sees at this instant: sizes of the tracked files, and the on-disk size of the
+        file that was written through a still-open handle (its unflushed tail is lost by a kill)"""
+        snap = {}
+        for root, _, files in os.walk(self.root):
+            for f in files:
+                p = os.path.join(root, f)
+                if self.tracked(p):
+                    snap[p] = os.stat(p).st_size
+        flushed = None
+        for tf in self.open_files:
+            if tf._written and not tf._f.closed:
+                flushed = os.fstat(tf._f.fileno()).st_size
+        return snap, flushed
+
+    def _die(self, msg, **fields):
+        self.fired = True
+        self.snapshot, flushed = self._disk_state()
+        self.cur.update(crashed=True, flushed=flushed, **fields)
+        raise Kill(msg)
+
+    def restore_disk(self):
+        """after the stack has unwound (context managers closed and thereby flushed their files): put back exactly
+        what was on disk when the process died"""
+        snap, self.snapshot = self.snapshot, None
+        if snap is None:
+            return
+        for root, _, files in os.walk(self.root):
+            for f in files:
+                p = os.path.join(root, f)
+                if not self.tracked(p):
+                    continue
+                if p not in snap:
+                    os.remove(p)
+                elif os.stat(p).st_size > snap[p]:
+                    os.truncate(p, snap[p])
+
     def _tick(self, kind, path, atomic=True):
         """called before an operation starts; returns the k spec if the kill is *inside* this (non-atomic) op"""
         c = self.cur
@@ -75,9 +157,8 @@ class Injector:
             kspec = self.target[2]
             if kspec is None or atomic:
                 # killed before the operation started (an atomic operation has no inside)
-                self.fired = True
-                c.update(crashed=True, j=idx, k=None if kspec is None else 0, atomic_inside=kspec is not None)
-                raise Kill(f"before op {idx} of call {c['index']}")
+                self._die(f"before op {idx} of call {c['index']}", j=idx, k=None if kspec is None else 0,
+                          atomic_inside=kspec is not None)
             c["ops"].append(kind)
             c["paths"].append(self.rel(path))
             return kspec
@@ -92,10 +173,7 @@ class Injector:
         return sel == c["index"]
 
     def _die_inside(self, idx, k, n):
-        c = self.cur
-        self.fired = True
-        c.update(crashed=True, j=idx, k=k, len=n)
-        raise Kill(f"inside op {idx} of call {c['index']} after {k}/{n} bytes")
+        self._die(f"inside op {idx} of call {self.cur['index']} after {k}/{n} bytes", j=idx, k=k, len=n)
 
     # ------------------------------------------------------------------ wrappers
     def w_exists(self, path):
@@ -118,6 +196,7 @@ class Injector:
         if self.cur is not None and not self.inner and isinstance(file, (str, os.PathLike)) and "w" in mode \
                 and self.tracked(file):
             self._tick("O", file)
+            return TrackedFile(_real["open"](file, mode, *a, **kw), self, file)
         return _real["open"](file, mode, *a, **kw)
 
     def w_dump(self, obj, file, *a, **kw):
@@ -126,20 +205,26 @@ class Injector:
             return _real["dump"](obj, file, *a, **kw)
         idx = len(self.cur["ops"])
         kspec = self._tick("W", name, atomic=False)
-        self.inner += 1
-        try:
-            data = _real["dumps"](obj, *a, **kw)
-        finally:
-            self.inner -= 1
-        self.cur["len"] = len(data)
         if kspec is not None:
+            self.inner += 1
+            try:
+                data = _real["dumps"](obj, *a, **kw)
+            finally:
+                self.inner -= 1
             k = min(resolve_k(kspec, len(data)), len(data))
             file.write(data[:k])
-            file.flush()
+            file.flush()           # exactly k bytes have reached the disk
             self._die_inside(idx, k, len(data))
-        file.write(data)
-        # the point between the end of the write and the close of the `with` block
-        self._tick("X", name)
+        # the REAL pickle.dump through the real buffered writer: what is flushed and what stays in the user-space
+        # buffer is decided by CPython, not by the harness; the close of the handle is its own operation (X),
+        # ticked by TrackedFile.close where the code really closes it
+        start = file.tell()
+        self.inner += 1
+        try:
+            _real["dump"](obj, file, *a, **kw)
+        finally:
+            self.inner -= 1
+        self.cur["len"] = file.tell() - start
 
     def w_save(self, obj, f, *a, **kw):
         if self.cur is None or self.inner or not isinstance(f, (str, os.PathLike)) or not self.tracked(f):
@@ -187,6 +272,9 @@ class Injector:
                 yield rec
         finally:
             self.cur = None
+            for tf in list(self.open_files):
+                tf._really_close()
+            self.restore_disk()
 
     # ------------------------------------------------------------------ whole-run instrumentation
     @contextlib.contextmanager
